@@ -256,6 +256,8 @@ def aggregate(ctx):
         'davis_b': ('davis_b', ['davis_b'], ['towed_mass_static'], r'mass'),
         'cd_area': ('aerodynamic', ['cd_area'], [], None),
         'mass_rot_per_axle': ('mass_rot', ['mass_rot_per_axle', 'axle_count'], [], None),
+        'mass_freight': ('mass_freight', ['mass_freight'], [], None),
+        'braking_ratio': ('braking_ratio', ['braking_ratio'], [], None),
     }
     seen = set()
     for cb in prog.closures_of(parent):
@@ -269,10 +271,17 @@ def aggregate(ctx):
         D = mk('sub', r, acc)
         txt = show(D)
         key = None
-        for fld in specs:
+        for fld in specs:          # in table order: the mass-weighted closures also read mass_freight (through the vehicle's mass())
             if re.search(r'\.%s\b' % fld, txt):
                 key = fld
+                break
         if key is None:
+            # the explicit per-car drag-area vector: each entry is added as it is
+            elem = [x for x in walk(D) if x[0] == 'pre' and x[1] and x[1][0] in (('val', 3), ('obj', 3))]
+            if elem and len(cb.params) == 3 and 'Area' in cb.params[2][1] + cb.params[1][1] or (elem and 'cd_area_vec' in show(r)):
+                seen.add('aerodynamic (per-car vector)')
+                ctx.check(D == elem[0] or Prover().eq(D, elem[0])[0] == 'PROVED', 'C07-5.aggregate', parent + '|aerodynamic (per-car vector)',
+                          'each entry of the per-car drag-area vector is added once', 'the fold step adds %s' % show(D)[:160], ctx.where(cb))
             continue
         name, factors, denoms, rest_rx = specs[key]
         if name in seen:
@@ -323,7 +332,7 @@ def aggregate(ctx):
         ctx.check(ok, 'C07-5.aggregate', parent + '|' + name,
                   'per vehicle type: count × %s%s%s' % ('·'.join(factors), '·mass' if rest_rx else '', ('/' + '/'.join(denoms)) if denoms else ''),
                   '; '.join(why) + ' :: contribution = %s' % str(e)[:300], ctx.where(cb))
-    ctx.floor('aggregation closures recognised', len(seen), 5)
+    ctx.floor('aggregation closures recognised', len(seen), 8)
     # mass_static = towed + consist mass (TrainState::new argument)
     an = analysis_or_fail(ctx, 'C07-5.aggregate', b)
     if an is not None:
